@@ -129,6 +129,7 @@ def _draw_cases():
 
 @contract(GHM + ".draw_sample", ["C07", "C19"], _draw_cases(), name="ghm.draw_sample")
 class GhmDraw(Contract):
+    replay_uses_model = True
     """draw_sample(n, random_state): (n, n_dim) array; column i, row k is the (conditional) quantile of the k-th
     uniform of dimension i's block of ONE generator, conditioned on the sampled value of the declared
     conditioning variable in the same row"""
@@ -191,21 +192,34 @@ class GhmDraw(Contract):
 
     def replay(self, case, ob):
         import numpy as np
-        import scipy.stats as sts
         co = case["co"]
         m = native_model(co)
-        a = m.draw_sample(4000, random_state=12)
-        b = m.draw_sample(4000, random_state=12)
-        same = np.array_equal(a, b)
-        # Rosenblatt residuals must be uniform: DKW at 1e-12 for n=4000 -> eps = sqrt(ln(2/1e-12)/(2n)) = 0.0595
-        worst = 0.0
-        for i, c in enumerate(co):
-            d = m.distributions[i]
-            u = d.cdf(a[:, i]) if c is None else d.cdf(a[:, i], given=a[:, c])
-            u = np.sort(u)
-            worst = max(worst, float(np.max(np.abs(u - (np.arange(1, 4001) - 0.5) / 4000))))
-        bad = (not same) or a.shape != (4000, len(co)) or worst > 0.0595
-        return {"confirmed": bool(bad), "detail": f"structure {co}: same-seed equal={same}, shape={a.shape}, worst KS distance of Rosenblatt residuals={worst:.4f} (DKW 0.0595)"}
+        model = ob.get("model") or {}
+        try:
+            seed = int(model.get("seed", "12"))
+        except ValueError:
+            seed = 12
+        n = 4000
+        worst, worst_corr, same = 0.0, 0.0, True
+        for sd in sorted({seed, 0, 12}):
+            rs = np.random.default_rng(sd) if case["rs"] == "generator" else sd
+            rs2 = np.random.default_rng(sd) if case["rs"] == "generator" else sd
+            a = m.draw_sample(n, random_state=rs)
+            b = m.draw_sample(n, random_state=rs2)
+            same = same and np.array_equal(a, b) and a.shape == (n, len(co))
+            # Rosenblatt residuals: uniform (DKW at 1e-12: eps = sqrt(ln(2e12)/(2n)) = 0.0595) and mutually independent
+            U = np.empty_like(a)
+            for i, c in enumerate(co):
+                d = m.distributions[i]
+                U[:, i] = d.cdf(a[:, i]) if c is None else d.cdf(a[:, i], given=a[:, c])
+                u = np.sort(U[:, i])
+                worst = max(worst, float(np.max(np.abs(u - (np.arange(1, n + 1) - 0.5) / n))))
+            if len(co) > 1:
+                cm = np.corrcoef(U.T)
+                worst_corr = max(worst_corr, float(np.max(np.abs(cm - np.eye(len(co))))))
+        bad = (not same) or worst > 0.0595 or worst_corr > 0.12
+        return {"confirmed": bool(bad), "detail": f"structure {co}: same-seed equal={same}, worst KS distance of Rosenblatt residuals={worst:.4f} (DKW 0.0595), "
+                                                   f"largest |correlation| between residual columns={worst_corr:.3f} (independent: < 0.12 = 7.6 sigma at n=4000); seeds tried {sorted({seed, 0, 12})}"}
 
 
 # ----------------------------------------------------------------------------------------------- symbolic n_dim
